@@ -18,7 +18,12 @@ import threading
 import types
 
 LOCK_SH, LOCK_EX, LOCK_NB, LOCK_UN = 1, 2, 4, 8
-LOCK_PY = "/repo/src/pharmpy/internals/fs/lock.py"
+
+
+def _lock_py():
+    import importlib.util
+
+    return importlib.util.find_spec("pharmpy.internals.fs.lock").origin
 
 
 class Abort(BaseException):
@@ -391,7 +396,7 @@ def load_lock_instance(run, vpid):
     """A private instance of lock.py whose primitives are the shims of this run."""
     global _SOURCE
     if _SOURCE is None:
-        _SOURCE = compile(open(LOCK_PY).read(), LOCK_PY, "exec")
+        _SOURCE = compile(open(_lock_py()).read(), _lock_py(), "exec")
     thr = types.ModuleType("threading")
     thr.Lock = lambda: ShimLock(run)
     thr.RLock = lambda: ShimRLock(run)
@@ -417,7 +422,7 @@ def load_lock_instance(run, vpid):
     osm.close = _close
     saved = {k: sys.modules.get(k) for k in ("threading", "fcntl", "os")}
     mod = types.ModuleType(f"vp_lock_instance_{vpid}")
-    mod.__file__ = LOCK_PY
+    mod.__file__ = _lock_py()
     try:
         sys.modules["threading"] = thr
         sys.modules["fcntl"] = fc
